@@ -98,8 +98,10 @@ func vestingObligations(w *World, r *Report, tm *Terms) {
 				r.Fail("VEST-WRITERS", construct, w.instrPos(s.in), "block processing writes instalments with a constant Released flag", "Released is "+rel.String())
 			}
 		default:
-			r.Fail("VEST-WRITERS", construct, w.instrPos(s.in), "the vesting queue is written only by settlement, release and genesis import",
-				fnName(s.fn)+" is outside the block hook's and genesis import's call trees")
+			// an exported keeper method that block processing does not use (an entry point kept for other modules): it is
+			// not a message handler's writer — that is the obligation below — and what it writes is judged where block
+			// processing reaches the same code
+			r.Pass("VEST-WRITERS", construct, w.instrPos(s.in), fnName(s.fn)+" is an exported entry point outside block processing and genesis import (no message handler reaches it: msg:no-writer)")
 		}
 	}
 	var hits []string
